@@ -124,6 +124,25 @@ class C10:
             g.add("grt", "REQGRT %s %s %s %s %s" % (spelling, hx(method), hx(target), hdrs_field(hs), hx(body)))
             groups.append(g)
             j += 1
+        # values whose header lines do NOT fit the limit (outside C10's hypothesis, so no round-trip oracle): the dependency
+        # folds them or refuses; the model of its folding (Hm/Fold.lean) is compared on the generated bytes and on what parses back
+        for _ in range(n // 12):
+            hl = rng.pick([8, 10, 12, 16, 20, 30, 40, 64])
+            hs = []
+            for _h in range(rng.randint(1, 3)):
+                words = [gen.rand_bytes(rng, rng.randint(1, 12), b"abcdefgh0123") for _w in range(rng.randint(1, 8))]
+                seps = [rng.pick([b" ", b" ", b"\t", b"  ", b" \t", b"   "]) for _w in words]
+                value = b"".join(w + sp for w, sp in zip(words, seps)).strip(b" \t")
+                hs.append((rng.pick([b"X", b"Xy", b"X-Header", b"A"]), value))
+            body = gen.rand_bytes(rng, rng.below(6))
+            if rng.chance(1, 2):
+                g = Group("gf%d" % j, "value-folded", {"hl": hl})
+                g.add("grt", "REQGRT %d %s %s %s %s" % (hl, hx(b"GET"), hx(b"/"), hdrs_field(hs), hx(body)))
+            else:
+                g = Group("gf%d" % j, "value-folded", {"hl": hl})
+                g.add("grt", "RESPGRT %d 200 %s %s %s" % (hl, hx(b"OK"), hdrs_field(hs), hx(body)))
+            groups.append(g)
+            j += 1
         # the URI model itself (dependency), on the target grammar and its mutations
         for k in range(n):
             t = gen.rand_target(rng) if rng.chance(3, 4) else rng.pick(gen.BAD_TARGETS + gen.D8_TARGETS)
@@ -143,7 +162,7 @@ class C10:
     @staticmethod
     def oracle(group, res):
         fails = []
-        if group.kind == "uri":
+        if group.kind in ("uri", "value-folded"):
             return fails
         meta = group.meta
         out = strip_ann(res[group.tag(0)])
@@ -210,6 +229,29 @@ class C11:
                 g = Group("t%d" % k, "resp-reparse", {"stream": s.hex(), "kind": "resp"})
                 g.add("rt", gen.resp_op(tree, ov, None, [s] if rng.chance(2, 3) else rng.pick(gen.schedules(rng, s, n_random=2) or [[s]]), op="RTRESP"))
             groups.append(g)
+        # accepted header lines that no longer fit when they are written back (`Name:value` comes back as `Name: value`):
+        # the dependency folds them; white space of every kind at, before and across the place where it folds
+        j = 0
+        for lim in (1000, 1000, 64, 100, 255):
+            for name in (b"X", b"X-Long-Name"):
+                for ws in (b" ", b"\t", b"  ", b" \t", b"\t ", b"   ", b"\t\t"):
+                    for delta in (0, 1, 2):
+                        for tail in (1, 2, 5):
+                            vlen = lim - 2 - len(name) - 1 - delta
+                            if vlen - len(ws) - tail < 1:
+                                continue
+                            value = b"a" * (vlen - len(ws) - tail) + ws + b"b" * tail
+                            raw = name + b":" + value + CRLF
+                            if j % 2 == 0:
+                                st = b"GET / HTTP/1.1\r\n" + raw + b"\r\n"
+                                g = Group("f%d" % j, "req-reparse", {"stream": st.hex(), "kind": "req", "what": "header line of %d bytes, %r %d bytes before its end" % (len(raw), ws, tail)})
+                                g.add("rt", gen.req_op(tree, ov, (None, lim, None) if lim != 1000 else (1000, 1000, 10_000_000), [st], op="RTREQ"))
+                            else:
+                                st = b"HTTP/1.1 200 OK\r\n" + raw + b"Content-Length: 0\r\n\r\n"
+                                g = Group("f%d" % j, "resp-reparse", {"stream": st.hex(), "kind": "resp", "what": "header line of %d bytes, %r %d bytes before its end" % (len(raw), ws, tail)})
+                                g.add("rt", gen.resp_op(tree, ov, lim, [st], op="RTRESP"))
+                            groups.append(g)
+                            j += 1
         return groups
 
     @staticmethod
